@@ -46,9 +46,14 @@ def poly_expr(rng, xs, us):
         elif r < 0.8:
             terms.append(["*", a, ["*", rng.choice(xs), rng.choice(xs)]])
             kinds.append("prod")
-        elif r < 0.9:
+        elif r < 0.86:
             terms.append(["*", a, ["infder", rng.choice(xs)]])
             kinds.append("der")
+        elif r < 0.9:
+            # state times derivative, in either operand order (both orders may occur in one expression / process)
+            xa, xb = rng.choice(xs), rng.choice(xs)
+            terms.append(["*", xa, ["infder", xb]] if rng.random() < 0.5 else ["*", ["infder", xb], xa])
+            kinds.append("xder")
         elif us:
             terms.append(["*", ["inert", rng.choice(us)], rng.choice(xs)])
             kinds.append("inert")
@@ -88,6 +93,14 @@ def gen_cases(rng, tier):
                 spec["rhs"][s["name"]] = [[E.rand_expr_covering(rng, [rng.choice(lv)] + lu[:1], lv + [["t"]], 2)]]
             spec["leaves"]["x"] = lv
         xs = [E.sym(s["name"]) for s in spec["states"]]
+        if rng.random() < 0.4:
+            # an unconstrained vector-valued state declared before the scalar ones (the polynomial stays in scalar states)
+            nv = rng.choice([2, 3])
+            spec["states"].insert(0, {"name": "xv", "shape": [nv, 1]})
+            rows = [[["-", ["*", ["c", -0.5], E.sym("xv", i, 0)], E.sym("xv", (i + 1) % nv, 0)]] for i in range(nv)]
+            rows[0] = [["+", rows[0][0], rng.choice(xs)]]
+            spec["rhs"]["xv"] = rows
+            spec["leaves"]["x"] = [E.sym("xv", i, 0) for i in range(nv)] + spec["leaves"]["x"]
         us = [e for e in spec["leaves"]["u"]]
         e, kinds = poly_expr(rng, xs, us)
         form = rng.choice(["le", "ge"])
